@@ -87,6 +87,8 @@ type FnCtx struct {
 	retInfos []retInfo
 	exit     *retInfo
 	propFlags map[int][]propFlag
+	onlyFlags map[int][]propFlag // failsonly: "a listed callee returned a non-nil error"
+	tolFlags  map[int][]propFlag // tolerates: "the listed callee returned the tolerated error value"
 	modMemo  map[*ssa.Function]*ModSet
 	modBusy  map[*ssa.Function]bool
 	funDefs  []string
